@@ -59,8 +59,9 @@
 (* header word outside linear memory, never-written (zero) memory, the     *)
 (* header of a block that is on a free list (double free), and user data   *)
 (* whose words have bit 32 clear (IDEALISATION: the harness writes only    *)
-(* even bytes; a caller can forge a header inside its own data, that is    *)
-(* inherent to the design and outside the statement).  Unaligned pointers  *)
+(* even bytes, and four zero bytes at the end of every block; a caller can *)
+(* forge a header inside its own data, that is inherent to the design and  *)
+(* outside the statement).  Unaligned pointers  *)
 (* (never handed out, hence invalid) must fail wherever they point: class  *)
 (* "unaligned" when the 8 bytes before them are never-written memory,      *)
 (* "unaligned-at-block" when they straddle a block header and its          *)
@@ -226,26 +227,31 @@ AllOps(s) ==
 NextAll == \E o \in AllOps(st) : Step(o)
 
 (* engine G: one randomly drawn operation per step (single successor) *)
-InvalidCands(s) ==
+(* invalid pointers are drawn from four pools (pool first, then uniformly inside it) *)
+InvalidPools(s) ==
   LET lp == {a.p : a \in s.live}
       al == {0, s.base, s.base + 1, s.bumper + 1, s.bumper + 2, s.bumper + 5, MemUnits(s), MemUnits(s) + 1, MemUnits(s) + 7}
             \cup {k.h + 1 : k \in s.blocks}                                   \* freed blocks: double free
             \cup {a.p + 1 : a \in {x \in s.live : x.o > 0}}                   \* inside a live block
             \cup {a.p + Pow(a.o) : a \in s.live}                              \* last data unit read as header
             \cup {a.p + Pow(a.o) - 1 : a \in {x \in s.live : x.o > 1}}
-      un == {u \in {0, s.bumper + 1, s.bumper + 3, MemUnits(s), MemUnits(s) + 1, s.base - 1} : u >= 0}
-            \cup {k.h : k \in s.blocks} \cup {k.h + 1 : k \in s.blocks}       \* the 8 bytes before it straddle a header
-  IN {[u |-> u, b |-> 0] : u \in {x \in al \ lp : x >= 0 /\ x < 536870912}}
-     \cup {[u |-> u, b |-> b] : u \in {x \in un : x < 536870912}, b \in {1, 4, 5, 7}}
+      un == {u \in {0, s.bumper + 1, s.bumper + 3, MemUnits(s), MemUnits(s) + 1, s.base - 1} : u >= 0 /\ UnalignedOK(s, u)}
+      fits(S) == {c \in S : c.u >= 0 /\ c.u < 536870912}
+  IN << fits({[u |-> u, b |-> 0] : u \in al \ lp}),
+        fits({[u |-> u, b |-> b] : u \in un, b \in {1, 4, 5, 7}}),
+        (* the 8 bytes before the pointer are the tail of the previous block and the first half of a header *)
+        fits({[u |-> k.h, b |-> 4] : k \in s.blocks}),
+        fits({[u |-> k.h, b |-> b] : k \in s.blocks, b \in {1, 5, 7}} \cup {[u |-> k.h + 1, b |-> b] : k \in s.blocks, b \in {1, 4}}) >>
 
 (* NB the argument of every RandomElement depends on a variable: TLC caches  *)
 (* constant-level expressions, a constant set would yield one fixed draw.   *)
 PickOp(s) ==
   LET r == RandomElement({x \in 1..60 : Len(hist) >= 0})
       lp == {a.p : a \in s.live}
-      inv == InvalidCands(s)
-  IN IF r <= s.iw /\ inv # {}
-       THEN LET c == RandomElement(inv) IN [op |-> "Deallocate", u |-> c.u, b |-> c.b]
+      pools == InvalidPools(s)
+      ne == {i \in 1..4 : pools[i] # {}}
+  IN IF r <= s.iw /\ ne # {}
+       THEN LET c == RandomElement(pools[RandomElement(ne)]) IN [op |-> "Deallocate", u |-> c.u, b |-> c.b]
      ELSE IF r <= s.iw + s.fw /\ lp # {}
        THEN [op |-> "Deallocate", u |-> RandomElement(lp), b |-> 0]
      ELSE [op |-> "Allocate", size |-> RandomElement(s.sizes)]
